@@ -53,14 +53,15 @@ func (d *PathDecoder) SignatureAtPos(filename string, pos hcl.Pos) (*lang.Functi
 		}
 
 		pRange := hcl.RangeBetween(fNode.OpenParenRange, fNode.CloseParenRange)
-		if !pRange.ContainsPos(pos) {
-			return nil // Not inside parenthesis
+		if !pRange.ContainsPos(pos) || pos.Byte < fNode.OpenParenRange.End.Byte {
+			return nil // Not inside parenthesis (or in front of the opening one)
 		}
 
 		activePar := 0 // default to first parameter
 		foundActivePar := false
 		lastArgEndPos := fNode.OpenParenRange.Start
 		lastArgIdx := 0
+		passedArgs := false
 		for i, v := range fNode.Args {
 			// We overshot the argument and stop
 			if v.Range().Start.Byte > pos.Byte {
@@ -73,6 +74,7 @@ func (d *PathDecoder) SignatureAtPos(filename string, pos hcl.Pos) (*lang.Functi
 			}
 			lastArgEndPos = v.Range().End
 			lastArgIdx = i
+			passedArgs = true
 		}
 
 		if !foundActivePar {
@@ -82,6 +84,10 @@ func (d *PathDecoder) SignatureAtPos(filename string, pos hcl.Pos) (*lang.Functi
 			trimmedBytes := bytes.TrimRight(recoveredBytes, " \t\n")
 			if string(trimmedBytes) == "," {
 				activePar = lastArgIdx + 1
+			} else if passedArgs {
+				// no comma yet, we are still in the slot
+				// of the last argument (followed by whitespace)
+				activePar = lastArgIdx
 			}
 		}
 
